@@ -26,6 +26,11 @@ type Kind struct {
 	Oracle func(in, out Val) string
 	// NoModel: the case is run on the implementation and the oracle only.
 	NoModel bool
+	// Project, if set, maps the implementation's observable to the part that is
+	// compared with the model (the oracle still sees the full observable). Used to
+	// keep incidental detail (e.g. how output is split into Write calls) out of the
+	// correspondence.
+	Project func(out Val) Val
 }
 
 var kinds = map[string]*Kind{}
@@ -36,6 +41,27 @@ func register(k *Kind) *Kind {
 	}
 	kinds[k.Name] = k
 	return k
+}
+
+func project(k *Kind, out Val) (p Val) {
+	if k.Project == nil {
+		return out
+	}
+	defer func() {
+		if recover() != nil {
+			p = out // unexpected shape: compare as is
+		}
+	}()
+	return k.Project(out)
+}
+
+// joinChunks turns a list of byte chunks into the single byte string written.
+func joinChunks(v Val) Val {
+	var all []byte
+	for _, c := range v.List() {
+		all = append(all, c.Bytes()...)
+	}
+	return B(all)
 }
 
 func runImpl(k *Kind, in Val) (out Val) {
@@ -105,7 +131,7 @@ func (c *Ctx) Run(k *Kind, in Val, nontrivial bool, strata ...string) Val {
 	outs := out.String()
 	if !k.NoModel {
 		fmt.Fprintf(c.cases, "%d %s %s\n", id, k.Name, ins)
-		fmt.Fprintf(c.impl, "%d %s\n", id, outs)
+		fmt.Fprintf(c.impl, "%d %s\n", id, project(k, out).String())
 	}
 	if k.Oracle != nil {
 		if msg := k.Oracle(in, out); msg != "" {
